@@ -127,7 +127,8 @@ def run(check, mirror, tier):
         def desc(m, inputs):
             return {k: model_value(m, x) for k, x in inputs.items() if not k.startswith("_")}
         jobs.append(lambda c: decide(c, crate, oid, setup, post, replay_number, rb, models=A.ATOM_MODELS, unwind=6, describe=desc,
-                                     budget_s=600, min_paths=1, timeout_ms=20000, known_predicates=KNOWN_PRED))
+                                     budget_s=600, min_paths=1, timeout_ms=20000, known_predicates=KNOWN_PRED, max_cex=3,
+                                     prefer=lambda v: v["d1"] >= 1))   # a non-zero coefficient: the sign of a zero does not change its value
 
     for L in Ls:
         mk("Eplus", L)
